@@ -99,7 +99,8 @@ type simCluster struct {
 
 type simBroker struct {
 	c    *simCluster
-	id   int32
+	idx  int32 // 1-based index used by scenarios (leaders, moves); 0 = no broker
+	id   int32 // the Kafka broker id announced in metadata (idBase + idx - 1; may be 0)
 	ln   net.Listener
 	wg   sync.WaitGroup
 	mu   sync.Mutex
@@ -117,11 +118,28 @@ func newSimCluster(t testing.TB, rec *vRec, nbrokers int, leaders []int32) *simC
 		if err != nil {
 			t.Fatal(err)
 		}
-		b := &simBroker{c: c, id: int32(i + 1), ln: ln, cons: map[net.Conn]bool{}}
+		b := &simBroker{c: c, idx: int32(i + 1), id: int32(i + 1), ln: ln, cons: map[net.Conn]bool{}}
 		c.brokers = append(c.brokers, b)
 		go b.serve()
 	}
 	return c
+}
+
+// SetIDBase renumbers the brokers' Kafka ids (idBase 0 makes the first broker id 0, a valid id that
+// code must not confuse with "unset"); scenario-level indices stay 1-based.
+func (c *simCluster) SetIDBase(base int32) {
+	for _, b := range c.brokers {
+		b.id = base + b.idx - 1
+	}
+}
+
+func (c *simCluster) idOf(idx int32) int32 {
+	for _, b := range c.brokers {
+		if b.idx == idx {
+			return b.id
+		}
+	}
+	return -1
 }
 
 func (c *simCluster) Addrs() []string {
@@ -324,7 +342,7 @@ func (c *simCluster) handleMetadata(b *simBroker, r *MetadataRequest) encoderWit
 		c.metaFail--
 		fail = true
 	}
-	md := &MetadataResponse{Version: r.Version, ControllerID: 1}
+	md := &MetadataResponse{Version: r.Version, ControllerID: c.idOf(1)}
 	for _, br := range c.brokers {
 		md.AddBroker(br.ln.Addr().String(), br.id)
 	}
@@ -338,10 +356,11 @@ func (c *simCluster) handleMetadata(b *simBroker, r *MetadataRequest) encoderWit
 		if fail || pt.leader <= 0 {
 			md.AddTopicPartition(simTopic, int32(p), -1, nil, nil, nil, ErrLeaderNotAvailable)
 		} else {
-			md.AddTopicPartition(simTopic, int32(p), pt.leader, []int32{pt.leader}, []int32{pt.leader}, nil, ErrNoError)
+			lid := c.idOf(pt.leader)
+			md.AddTopicPartition(simTopic, int32(p), lid, []int32{lid}, []int32{lid}, nil, ErrNoError)
 		}
 	}
-	c.rec.Ev("meta", kv{"broker": int(b.id), "fail": fail})
+	c.rec.Ev("meta", kv{"broker": int(b.idx), "fail": fail})
 	return md
 }
 
@@ -515,7 +534,7 @@ func (c *simCluster) handleProduce(b *simBroker, r *ProduceRequest, wire int) (e
 		total += len(ids)
 		evb = append(evb, kv{"part": int(bt.part), "ids": ids, "pid": int(bt.pid), "epoch": int(bt.epoch), "seq": int(bt.seq), "kvbytes": bt.kvLen})
 	}
-	c.rec.Ev("recv", kv{"req": n, "broker": int(b.id), "batches": evb, "wire": wire, "nmsgs": total, "acks": int(r.RequiredAcks), "ver": int(r.Version)})
+	c.rec.Ev("recv", kv{"req": n, "broker": int(b.idx), "batches": evb, "wire": wire, "nmsgs": total, "acks": int(r.RequiredAcks), "ver": int(r.Version)})
 	seen := c.seenChan(n)
 	select {
 	case <-seen:
@@ -561,7 +580,7 @@ func (c *simCluster) handleProduce(b *simBroker, r *ProduceRequest, wire int) (e
 			kinds = append(kinds, []interface{}{int(bt.part), "unknown"})
 			continue
 		}
-		if pt.leader != b.id {
+		if pt.leader != b.idx {
 			resp.AddTopicPartition(simTopic, bt.part, ErrNotLeaderForPartition)
 			kinds = append(kinds, []interface{}{int(bt.part), "notleader"})
 			continue
